@@ -3,6 +3,8 @@
 
     tree <sexp>                      ( tag child … ) | t:tag:valuehex | _      → ok <size>
     table <sym>=<Cls>:<feat>,…;… <fallback Cls:feat | none>                  → ok
+    tableload <Cls>:<feat>@<sym>,<sym>;… <fallback Cls:feat | none>           → ok   (Resolver.load of a SymbolMapping given in class order)
+    accepts | canresolve <sym>                                                → ok sym,sym | true|false
     pathfy                                                                    → path:name:size:valuehex|…
     pluck <path>                                                              → ok name:size:valuehex same|other|absent  / <error>
     id <path> | exists <path>
@@ -78,6 +80,14 @@ def parseTable (spec fb : String) : Table :=
     | _ => t) t
   { t with fallback := if fb == "none" then none else parseClass fb }
 
+/-- `SymbolMapping.symbols` in dict order: `Cls:feat@sym,sym;…` -/
+def parseMapping (spec : String) : Option (List (ClassDef × List Str)) :=
+  if spec == "" then some [] else
+  (spec.splitOn ";").mapM (fun item =>
+    match item.splitOn "@" with
+    | [c, syms] => (parseClass c).map (fun cd => (cd, if syms == "" then [] else (syms.splitOn ",").map s2l))
+    | _ => none)
+
 structure St where
   w : World := default
   pf : List (Str × Entry) := []
@@ -128,6 +138,12 @@ def step (st : St) : List String → St × String
       ({ st with w := { st.w with root := e, cache := mkCache e }, pf := pf, ns := {} }, s!"ok {size e}")
     | _ => (st, "bad-op")
   | ["table", spec, fb] => ({ st with w := { st.w with table := parseTable spec fb }, ns := {} }, "ok")
+  | ["tableload", spec, fb] =>
+    match parseMapping spec, (if fb == "none" then some none else (parseClass fb).map some) with
+    | some m, some f => ({ st with w := { st.w with table := Table.load m f }, ns := {} }, "ok")
+    | _, _ => (st, "bad-op")
+  | ["accepts"] => (st, "ok " ++ ",".intercalate (st.w.table.accepts.map l2s))
+  | ["canresolve", sym] => (st, toString (st.w.table.canResolve (s2l sym)))
   | ["pathfy"] => (st, "|".intercalate (st.pf.map fun kv => s!"{l2s kv.1}:{digest kv.2}"))
   | ["pluck", p] =>
     let p := s2l p
